@@ -48,6 +48,26 @@ def selector_inv(rng):
     return inv, set()
 
 
+def override_inv(rng):
+    """Later classes override several keys of one mapping at once (and at two levels): values and the order of
+    the keys are a function of the inventory, not of any per-run hashing."""
+    inv = G.Inv()
+    keys = ['a', 'b', 'c', 'd', 'e', 'f']
+    inv.classes[('base.yml',)] = G.doc([], ['bapp'], ('m', [(S('m'), ('m', [(S(k), I(j)) for j, k in enumerate(keys)])),
+                                                           (S('n'), M(('inner', ('m', [(S(k), S('v' + k)) for k in keys])))),
+                                                           (S('trace'), L(S('base')))]))
+    for j in range(rng.randint(1, 3)):
+        ov = rng.sample(keys, rng.randint(2, 5))
+        inv.classes[('ov%d.yml' % j,)] = G.doc([], [], ('m', [(S('m'), ('m', [(S('~' + k), S('o%d%s' % (j, k))) for k in ov])),
+                                                             (S('n'), M(('inner', ('m', [(S('~' + k), I(j)) for k in ov[:3]])))),
+                                                             (S('trace'), L(S('ov%d' % j)))]))
+    names = ['base'] + ['ov%d' % j for j in range(3) if ('ov%d.yml' % j,) in inv.classes]
+    for j in range(rng.randint(2, 4)):
+        inv.nodes[('%s%d.yml' % (rng.choice('abz'), j),)] = G.doc(names, [], ('m', [(S('emb'), S('m=${m}')), (S('trace'), L(S('NODE')))]))
+    inv.universe.update(names)
+    return inv, set()
+
+
 def badref_inv(rng):
     """Several nodes share a class that holds a reference which does not parse: each of them fails, every
     time it is rendered, whatever was rendered before; the other nodes render."""
@@ -81,6 +101,8 @@ def run(tier, rng, C):
             inv, failing = selector_inv(rng)
         elif i % 6 == 1:
             inv, failing = badref_inv(rng)
+        elif i % 6 == 3:
+            inv, failing = override_inv(rng)
         else:
             inv, failing = P13.multi_node_inv(rng, fail=0.0 if i % 4 else 0.2)
         if i % 7 == 3 and not failing:
